@@ -59,8 +59,6 @@ def _sync(H, sh):
                                 credit_out=0, pub_term=False, peer_cancel=False, fut_done=False, credit_in=0,
                                 has_pub=bool(o.get('pub')), has_sub=bool(o.get('sub')), peer_opened=o['kind'] in ('rrResp', 'stResp', 'chResp'))
             i = sh.info[oid]
-            if o['kind'] == 'rrReq':
-                i['sid'] = H.ep._stream_control._current_stream_id
             if o['kind'] == 'rrResp':
                 i['fut_done'] = o['fut'].done()
             if o['kind'] in ('stResp', 'chResp'):
@@ -100,7 +98,7 @@ def choose_one(rng, H, sh, profile):
                 if not i['we_cancel'] and not i['peer_term']:
                     w((2, lambda oid=oid: {'op': 'SRQ', 'oid': oid, 'n': rng.choice([1, 2, 5])}))
                     w((1, lambda oid=oid: {'op': 'SCN', 'oid': oid}))
-                elif hostile or rng.random() < 0.05:
+                elif hostile:
                     w((1, lambda oid=oid: {'op': 'SCN', 'oid': oid}))
         if k == 'chResp' and i['has_sub'] and not i['we_cancel'] and not i['peer_term']:
             w((2, lambda oid=oid: {'op': 'SRQ', 'oid': oid, 'n': rng.choice([1, 2, 5])}))
